@@ -16,11 +16,12 @@ const genPrelude = `
 function mk(name, vals, hasReturn, hasThrow, retDone) {
   var i = 0;
   var it = { next(v) { log(name + '.next ' + describe(v)); return i < vals.length ? {value: vals[i++], done: false} : {value: name + ' end', done: true}; } };
-  if (hasReturn) it.return = function(v) { log(name + '.return ' + describe(v)); return {value: name + ' ret', done: retDone}; };
+  if (hasReturn) it.return = function(v) { log(name + '.return ' + describe(v)); deepTry(17); return {value: name + ' ret', done: retDone}; };
   if (hasThrow) it.throw = function(v) { log(name + '.throw ' + describe(v)); return {value: name + ' thr', done: retDone}; };
   return { [Symbol.iterator]() { return it; } };
 }
 function f2(a, b) { return [a, b]; }
+function deepTry(d) { try { if (d > 0) deepTry(d - 1); } finally { } } // grows the VM's try stack while an iterator is being closed
 function reenter(m) { try { log(it[m]('re')); log('reentered'); } catch (e) { log('reenter ' + m + ' ' + e.constructor.name); } }
 function* inner() { try { var a = yield 'i1'; log('inner got ' + describe(a)); yield 'i2'; } finally { log('inner fin'); } return 'inner result'; }
 `
